@@ -270,6 +270,9 @@ def r3b(ctx):
     without = [s for s in nq if is_agg(fa.arg_origin(s, 1), "None")]
     sw = [x for x in switch_edges_on(fa, lambda o: o == ("disc", ("param", "block_root")))]
     good = len(nq) == 2 and len(with_root) == 1 and len(without) == 1 and bool(sw) and fa.dominates(sw[0][2].get(1, -1), with_root[0]) and all(strip(fa.arg_origin(s, 0)) == ("field", ("param", "upgrade"), "nodes") for s in nq)
+    if len(nq) == 1:
+        # one construction site fed by the parameter itself (`block_root.cloned()`)
+        good = fa.arg_origin(nq[0], 1) == ("param", "block_root") and strip(fa.arg_origin(nq[0], 0)) == ("field", ("param", "upgrade"), "nodes")
     ctx.check(P, rule, "the queue is seeded with the block root exactly when there is one", good, "NodeQueue::new(upgrade.nodes, Some(block_root)) | NodeQueue::new(upgrade.nodes, None)",
               "NodeQueue construction in verify_upgrade differs: %s" % [[term_str(fa.arg_origin(s, i))[:40] for i in range(2)] for s in nq])
     fs = ctx.fn(NQ_SHIFT)
@@ -281,8 +284,11 @@ def r3b(ctx):
             b, o, tr, fl = eq[0]
             match, differ = (tr, fl) if o[1] == "Eq" else (fl, tr)
             rets = [(bb, t) for bb, _, t in ok_returns(fs) if "take" in term_str(t) and "extra" in term_str(t)]
-            puts = [(bb, si) for bb, si in assign_sites(fs, "self.extra")]
-            good = bool(rets) and all(fs.dominates(match, bb) for bb, _ in rets) and bool(puts) and all(fs.dominates(differ, bb) for bb, _ in puts)
+            # put back: an assignment of the taken value to self.extra lies on every way from the
+            # mismatch edge to a return (it may also run when nothing was taken: `self.extra = other`)
+            puts = [(bb, si) for bb, si in assign_sites(fs, "self.extra") if "take" in term_str(fs.origin_rvalue(fs.blocks[bb].stmts[si]["rv"], bb, si))]
+            lost = [r for r in fs.returns if r in fs.reach(differ, avoiding=[bb for bb, _ in puts], include_src=True)] if differ not in [bb for bb, _ in puts] else []
+            good = bool(rets) and all(fs.dominates(match, bb) for bb, _ in rets) and bool(puts) and not lost
         ctx.check(P, rule, "the extra node leaves the queue only for the index it has", good, "extra.index == index => return it, else put it back",
                   "NodeQueue::shift hands out (or drops) the extra node without matching its index", key="C04|C04.R3|NodeQueue::shift|extra index match")
 
